@@ -125,7 +125,10 @@ def _make_deterministic():
     if tracked is not None:
         for _inst in list(tracked):
             if _inst is not randomness.RNG:
-                _inst.seed(seed)
+                # An instance created with an explicit seed *during* a test case used that seed
+                # in the creating test; reseeding it with the global seed made later results
+                # depend on whether the instance already existed.
+                _inst.seed(vars(_inst).get("_pynguin_construction_seed", seed))
 
 
 class PatchRandomOnUnpickle:
